@@ -582,7 +582,7 @@ def sweep_queries(full: bool) -> List[dict]:
 ALL_BITS = {1: "K_othervar", 2: "K_null", 4: "K_relop", 16: "K_strop", 32: "K_varoperand", 64: "K_noneorder",
             128: "K_strtruth", 256: "K_eqjoin_dropped", 512: "K_valueeq", 1024: "K_or_join", 2048: "K_setof",
             4096: "K_setlit", 8192: "K_namedvar"}
-OPEN_BITS = {2: "K_null", 512: "K_valueeq", 4096: "K_setlit", 8192: "K_namedvar"}
+OPEN_BITS = {2: "K_null", 512: "K_valueeq"}
 KNOWN_BITS = OPEN_BITS
 
 
